@@ -1142,11 +1142,11 @@ func main() {
 	gS, gB, gM, gX, gMask := &gen{root.Fork()}, &gen{root.Fork()}, &gen{root.Fork()}, &gen{root.Fork()}, root.Fork()
 
 	e := &emitter{
-		w:        &common.ShardWriter{Dir: *out, RunMod: "Regen.Cases.DecRun", CaseType: "dec_case", PerShard: 500, Preamble: "Require Import Regen.Dec.Dec.\n"},
-		desc:     map[string]interface{}{},
-		hist:     map[string]int{},
-		distinct: map[string]bool{},
-		violSeen: map[string]int{},
+		w:         &common.ShardWriter{Dir: *out, RunMod: "Regen.Cases.DecRun", CaseType: "dec_case", PerShard: 500, Preamble: "Require Import Regen.Dec.Dec.\n"},
+		desc:      map[string]interface{}{},
+		hist:      map[string]int{},
+		distinct:  map[string]bool{},
+		violSeen:  map[string]int{},
 		violDedup: map[string]bool{},
 	}
 
